@@ -76,7 +76,7 @@ def translate():
 def c_url(u): return "(Url %d %d)" % tuple(u)
 def c_optn(x): return "None" if x is None else "(Some %d)" % (x if x >= 0 else 999999)
 def c_cookies(cs): return C.clist("(%d,%d)" % c for c in cs)
-def c_sets(sets): return C.clist("(MsgSet %s %s %s)" % ({"bank": "SBank", "cc": "SCc", "inv": "SInv", "other": "SOther"}[k], c_url(u), C.cbool(cl)) for k, u, cl in sets)
+def c_sets(sets): return C.clist("(MsgSet %s %s %s)" % ({"bank": "SBank", "cc": "SCc", "inv": "SInv", "other": "SOther", "prof": "SOther"}[k], c_url(u), C.cbool(cl)) for k, u, cl in sets)
 def c_profile(p): return "(Profile %d %d %s)" % (p["id"], p["date"], c_sets(p["sets"]))
 
 
@@ -187,6 +187,10 @@ class Server:
         else:   # two BANKMSGSETs: the last decides StmtRq, the first (if closingavail) StmtEndRq
             second = svc if rng.random() < 0.5 else (svc[0], (svc[1] + 1) % len(PATHS))
             sets = [("bank", svc, rng.random() < 0.5), ("bank", second, False), ("other", home, False)]
+        if rng.random() < 0.5:
+            # the profile message set advertises a URL of its own - mostly NOT the configured one: later profile requests of the same
+            # client (cached profile present) must still go to the configured URL
+            sets = sets + [("prof", home if rng.random() < 0.2 else (rng.choice([2, 3, 4]), rng.randrange(len(PATHS))), False)]
         return self.profile(date, sets)
 
     def profile(self, date, sets):
@@ -195,7 +199,7 @@ class Server:
         blank = lambda t: ("  " + t + " ") if self.rng.random() < 0.15 else t
         data = H.make_profile(date, [(k, blank(url_str(u)), cl) for k, u, cl in sets], tag="p%d" % pid)
         self.profiles[data] = pid
-        order = {"other": 1, "bank": 2, "cc": 3, "inv": 4}
+        order = {"other": 1, "bank": 2, "cc": 3, "inv": 4, "prof": 5}
         p = {"id": pid, "date": date, "sets": sorted(sets, key=lambda s: order[s[0]]), "bytes": data}
         self.by_id[pid] = p
         return p
@@ -411,8 +415,67 @@ def run_cookie_case(case, workdir):
     return {"cookies": {"requests": state["n"], "kept": len(want_jar.store)}}, fails
 
 
+# ------------------------------------------------------------------ the front door: ofxget.main() (implementation only)
+def gen_cli_cases(rng):
+    """`ofxget stmt|stmtend myfi [--all | -C acct] [--skipprofile]` through ofxget.main() with a user configuration file, against a fake
+    institution whose profile advertises the configured or another URL and whose ACCTINFORS lists two ACTIVE accounts."""
+    out = []
+    for cmd in ("stmt", "stmtend"):
+        for all_ in (True, False):
+            for skip in (False, True):
+                for other in (True, False):
+                    out.append({"kind": "cli", "shape": "cli", "cmd": cmd, "all": all_, "skip": skip,
+                                "svc": [rng.choice([2, 3, 4]), rng.randrange(len(PATHS))] if other else [0, 0], "server_seed": 0})
+    return out
+
+
+def run_cli_case(case, workdir):
+    shutil.rmtree(workdir, ignore_errors=True)
+    os.makedirs(workdir)
+    cfg_url, svc_url = url_str((0, 0)), url_str(tuple(case["svc"]))
+    argv = [case["cmd"], "myfi", "--password", "pw-7-secret"] + (["--all"] if case["all"] else ["-C", "111"]) + (["--skipprofile"] if case["skip"] else [])
+    env = {"XDG_DATA_HOME": os.path.join(workdir, "xdg", "data"), "XDG_CONFIG_HOME": os.path.join(workdir, "xdg", "config"),
+           "XDG_CACHE_HOME": os.path.join(workdir, "xdg", "cache"), "HOME": os.path.join(workdir, "xdg", "home")}
+    args = {"env": env, "datadir": os.path.join(workdir, "data"), "server": "myfi", "argv": argv, "userid": "user-7-id", "password": "pw-7-secret",
+            "config": {"url": cfg_url, "org": "ORG1", "fid": "FID1", "user": "user-7-id", "bankid": "123456789", "version": "203"},
+            "sets": [["bank", svc_url, True], ["prof", url_str((4, 1)), False]],
+            "accounts": [["111", "CHECKING", "ACTIVE"], ["222", "SAVINGS", "ACTIVE"], ["333", "CHECKING", "PEND"]]}
+    rc, out = H.run_child("cli_child", args, workdir)
+    fails = []
+    try:
+        res = json.loads(out.strip().splitlines()[-1])
+    except Exception:
+        raise RuntimeError("ofxget front-door child failed (%d): %s" % (rc, out[-1500:]))
+    line = "ofxget " + " ".join(a if a != "pw-7-secret" else "<password>" for a in argv)
+    if res["error"]:
+        fails.append(("cli:command-failed", "`%s` failed: %s" % (line, res["error"]), {}))
+    want = cfg_url if case["skip"] else svc_url
+    for i, r in enumerate(res["requests"]):
+        if r["method"] != "POST":
+            fails.append(("request:not-POST", "`%s`: request %d is a %s" % (line, i, r["method"]), {}))
+        if r["kind"] == "profile":
+            if r["url"] != cfg_url:
+                fails.append(("profile-request:not-to-configured-url", "`%s`: profile request %d went to %s, configured %s" % (line, i, r["url"], cfg_url), {}))
+            if r["userid"] or r["password"]:
+                fails.append(("profile-request:carries-credentials", "`%s`: profile request %d carries the user's id or password" % line, {}))
+        elif (r["userid"] or r["password"]) and r["url"] != want:
+            fails.append(("credentials:not-to-configured-url-under-skip_profile" if case["skip"] else "credentials:not-to-advertised-url",
+                          "`%s`: the %s request (request %d of %s) carrying USERID/USERPASS went to %s; %s %s"
+                          % (line, r["kind"], i, [x["kind"] for x in res["requests"]], r["url"],
+                             "--skipprofile asks for the configured URL" if case["skip"] else "the institution's profile advertises", want), {}))
+    kinds = [r["kind"] for r in res["requests"]]
+    last = "stmtend" if case["cmd"] == "stmtend" else "stmt"
+    exp = ([] if case["skip"] else ["profile"])
+    exp = (exp + ["acctinfo"] if case["all"] else []) + exp + [last]
+    if not res["error"] and kinds != exp:
+        fails.append(("request:wrong-number-or-order", "`%s` posted %r, expected %r" % (line, kinds, exp), {}))
+    return {"cli": {"requests": len(res["requests"])}}, fails
+
+
 def run_case(case, workdir):
     """run the implementation on one case; returns (observation for the model comparison, property failures)."""
+    if case.get("kind") == "cli":
+        return run_cli_case(case, workdir)
     if case.get("kind") == "cookies":
         return run_cookie_case(case, workdir)
     L = H.lib()
@@ -583,12 +646,19 @@ def _run(rep, tier, rng):
     for _ in range(n):
         cases.append(gen_case(rng))
     cases += gen_cookie_cases(rng, 0, everything=True) if thorough else gen_cookie_cases(rng, 60)
+    cli = gen_cli_cases(rng)                 # each spawns an interpreter: spread them over the worker chunks
+    step = max(1, len(cases) // (len(cli) + 1))
+    for i, c in enumerate(cli):
+        cases.insert(min(len(cases), (i + 1) * step + i), c)
     items, kept = [], []
     results = H.pmap(run_case, cases, "c14")
     for i, case in enumerate(cases):
         obs, fails = results[i]
         for key, what, extra in fails:
             rep.failures.append(C.Failure(key, what, {"case": case, "at": extra}))
+        if "cli" in obs:
+            rep.count(json.dumps(case, sort_keys=True), nontrivial=obs["cli"]["requests"] > 0, kind="ofxget-main/%s%s%s" % (case["cmd"], "/all" if case["all"] else "", "/skip" if case["skip"] else ""))
+            continue
         if "cookies" in obs:
             rep.count(json.dumps(case, sort_keys=True), nontrivial=obs["cookies"]["kept"] > 0, kind="cookie-policy/%dkept" % min(obs["cookies"]["kept"], 3))
             continue
@@ -601,7 +671,8 @@ def _run(rep, tier, rng):
                 "x sequences of 1-8 calls over {profile, statements, accounts, tax} x {dryrun, skip_profile, normal} against a fake institution under urllib's opener that answers "
                 "profile requests with a newer / the same / an older profile (advertising the configured URL, another URL, two different URLs, none, or two BANKMSGSETs), "
                 "'up to date', an error status, garbage, a transport error or HTTP 500, and sets 0-2 cookies per response. Every request observed is judged against the "
-                "property text by an independent oracle; cookie-policy probes (implementation only: Set-Cookie with Domain= one/two labels above the answering host or "
+                "property text by an independent oracle; the front door `ofxget stmt|stmtend <server> [--all|-C acct] [--skipprofile]` through ofxget.main() in a fresh interpreter "
+                "(user configuration file, fake PROFRS / ACCTINFORS): where did each request carrying USERID/USERPASS go; cookie-policy probes (implementation only: Set-Cookie with Domain= one/two labels above the answering host or "
                 "foreign, with/without leading dot, Path= variants, Secure on https/http, Max-Age/Expires, deletion, several per response, a second client) judged by an "
                 "RFC 6265 user-agent oracle; the whole trace, the jars and the cache directory are compared with the Gallina model (vm_compute). "
                 "non-trivial = at least one request reached the fake server; distinct by (configuration, calls, server seed)")
